@@ -816,6 +816,64 @@ func c14(c *core.Ctx, r *core.Report) {
 								okg = true
 							}
 						}
+						if !okg {
+							// stored first, tested afterwards on the variable itself: every use of the struct is guarded by a
+							// `field < 1 → leave` test made after this store
+							if fa, isFA := st.Addr.(*ssa.FieldAddr); isFA {
+								// the rejecting tests on this field made after the store
+								type rej struct {
+									iff    *ssa.If
+									reject *ssa.BasicBlock
+								}
+								var rejs []rej
+								for _, b := range fn.Blocks {
+									iff, isIf := b.Instrs[len(b.Instrs)-1].(*ssa.If)
+									if !isIf {
+										continue
+									}
+									bo, isB := iff.Cond.(*ssa.BinOp)
+									if !isB {
+										continue
+									}
+									fl, isFl := bo.X.(*ssa.UnOp)
+									if !isFl || fl.Op != token.MUL {
+										continue
+									}
+									gfa, isG := fl.X.(*ssa.FieldAddr)
+									if !isG || gfa.X != fa.X || !an.SameField(an.FieldOfAddr(gfa), an.FieldOfAddr(fa)) {
+										continue
+									}
+									k, isK := bo.Y.(*ssa.Const)
+									if !isK {
+										continue
+									}
+									switch {
+									case (bo.Op == token.LSS && k.Int64() >= 1) || (bo.Op == token.LEQ && k.Int64() >= 0):
+										rejs = append(rejs, rej{iff, b.Succs[0]})
+									case bo.Op == token.GEQ && k.Int64() >= 1:
+										rejs = append(rejs, rej{iff, b.Succs[1]})
+									}
+								}
+								uses, guardedUses := 0, 0
+								for _, call := range an.AllCalls(fn) {
+									for _, a := range call.Common().Args {
+										ld, isLd := a.(*ssa.UnOp)
+										if !isLd || ld.Op != token.MUL || ld.X != fa.X {
+											continue
+										}
+										uses++
+										for _, rj := range rejs {
+											// every path from the store to the use passes the test, and its rejecting side never gets there
+											if !reachesAvoiding(st.Block(), call, rj.iff) && !reachesAvoiding(rj.reject, call, nil) {
+												guardedUses++
+												break
+											}
+										}
+									}
+								}
+								okg = uses > 0 && uses == guardedUses
+							}
+						}
 						r.Check(okg, key+"#flag", an.Pos(c, in), "flag path: "+ed+" guarded by `< 1 → error`", "the --concurrency flag value ("+ed+") reaches RunOptions.Concurrency without a `< 1` rejection")
 					}
 				}
